@@ -1,0 +1,115 @@
+//! Verification hooks (compiled only with `--cfg datatrash_mos_verif`, add-only, inert unless the
+//! environment variables below are set).
+//!
+//! `MOS_VERIF_TRACE=<file>`   : every `event(..)` appends one JSON line `{"seq":n,"th":"<thread>","ev":..,..}`.
+//!                              The sequence number is taken while the global sink lock is held; callers emit
+//!                              while they hold the lock that protects what the event describes, so `seq` is a
+//!                              linearisation of those critical sections.
+//! `MOS_VERIF_PERTURB=<seed>:<max_us>[:<permille>]` : `perturb(point)` sleeps a seeded pseudo-random time
+//!                              0..max_us with the given probability (default 300/1000) to widen race windows.
+//! `MOS_VERIF_GATES=<dir>`    : `perturb(point)` additionally blocks while the file `<dir>/<point>.hold` exists
+//!                              (a turnstile the harness opens by deleting the file).
+use once_cell::sync::Lazy;
+use std::io::Write;
+use std::sync::atomic::{AtomicU64, Ordering};
+use std::sync::Mutex;
+
+struct Sink {
+    file: Option<std::fs::File>,
+    seq: u64,
+}
+
+static SINK: Lazy<Mutex<Sink>> = Lazy::new(|| {
+    let file = std::env::var("MOS_VERIF_TRACE").ok().and_then(|p| {
+        std::fs::OpenOptions::new()
+            .create(true)
+            .append(true)
+            .open(p)
+            .ok()
+    });
+    Mutex::new(Sink { file, seq: 0 })
+});
+
+static PERTURB: Lazy<Option<(u64, u64, u64)>> = Lazy::new(|| {
+    let v = std::env::var("MOS_VERIF_PERTURB").ok()?;
+    let mut it = v.split(':');
+    let seed = it.next()?.parse::<u64>().ok()?;
+    let max_us = it.next()?.parse::<u64>().ok()?;
+    let permille = it.next().and_then(|p| p.parse::<u64>().ok()).unwrap_or(300);
+    Some((seed, max_us, permille))
+});
+
+static GATES: Lazy<Option<String>> = Lazy::new(|| std::env::var("MOS_VERIF_GATES").ok());
+static RNG: AtomicU64 = AtomicU64::new(0);
+
+pub fn enabled() -> bool {
+    SINK.lock().map(|s| s.file.is_some()).unwrap_or(false)
+}
+
+/// `fields` is the inside of a JSON object without braces, e.g. `"pc":49152,"hit":false`.
+pub fn event(ev: &str, fields: &str) {
+    if let Ok(mut s) = SINK.lock() {
+        if s.file.is_none() {
+            return;
+        }
+        s.seq += 1;
+        let seq = s.seq;
+        let th = std::thread::current();
+        let line = format!(
+            "{{\"seq\":{},\"th\":\"{:?}\",\"ev\":\"{}\"{}{}}}\n",
+            seq,
+            th.id(),
+            ev,
+            if fields.is_empty() { "" } else { "," },
+            fields
+        );
+        if let Some(f) = s.file.as_mut() {
+            let _ = f.write_all(line.as_bytes());
+        }
+    }
+}
+
+fn next_rand(seed: u64) -> u64 {
+    let mut x = RNG.load(Ordering::Relaxed);
+    if x == 0 {
+        x = seed.wrapping_mul(0x9E37_79B9_7F4A_7C15) | 1;
+    }
+    x ^= x << 13;
+    x ^= x >> 7;
+    x ^= x << 17;
+    RNG.store(x, Ordering::Relaxed);
+    x
+}
+
+pub fn perturb(point: &str) {
+    if let Some(dir) = GATES.as_ref() {
+        let p = std::path::Path::new(dir).join(format!("{}.hold", point));
+        let mut n = 0;
+        while p.exists() && n < 20000 {
+            std::thread::sleep(std::time::Duration::from_micros(500));
+            n += 1;
+        }
+    }
+    if let Some((seed, max_us, permille)) = *PERTURB {
+        let r = next_rand(seed);
+        if max_us > 0 && (r % 1000) < permille {
+            std::thread::sleep(std::time::Duration::from_micros((r >> 10) % max_us));
+        }
+    }
+}
+
+pub fn state_name(s: &crate::debugger::adapters::MachineRunningState) -> &'static str {
+    use crate::debugger::adapters::MachineRunningState::*;
+    match s {
+        Launching => "Launching",
+        Running => "Running",
+        Stopped(_) => "Stopped",
+    }
+}
+
+pub fn state_pc(s: &crate::debugger::adapters::MachineRunningState) -> u16 {
+    match s {
+        crate::debugger::adapters::MachineRunningState::Stopped(pc) => pc.as_u16(),
+        _ => 0,
+    }
+}
